@@ -247,7 +247,9 @@ def classes_leg(work, hook_files, coverage, rejected, tier):
 def _boxnames(desc):
     src = desc.get("src")
     if isinstance(src, dict) and "layers" in src:
-        return ",".join(str((l.get("g") or l.get("b") or {}).get("k")) for l in src["layers"])
+        def nm(x):
+            return "sqrt-scalar" if x.get("k") == "scalar" and x.get("sub") == "sqrt" else str(x.get("k"))
+        return ",".join(nm(l.get("g") or l.get("b") or {}) for l in src["layers"])
     return json.dumps(src)[:80]
 
 
